@@ -283,16 +283,15 @@ inline int attempt_once(Obj& proto, int path, const uint8_t* data, size_t len, c
     try {
       std::unique_ptr<Obj> o;
       if (path == P_BYTES || path == P_WRAP) {
-        buf = static_cast<uint8_t*>(malloc(len ? len : 1));       // exact size: ASan sees any over-read
-        if (len == 0) { free(buf); buf = static_cast<uint8_t*>(malloc(1)); }
-        // malloc(1) for len 0 leaves one addressable byte; shrink it to none with a 0-length realloc trick is not
-        // portable, so length 0 uses a 1-byte block that is poisoned by hand below
-        memcpy(buf, data, len);
+        buf = static_cast<uint8_t*>(malloc(len ? len : 8));       // exact size: ASan sees any over-read
+        // length 0: the reader gets the one-past-the-end pointer of an 8-byte block, so that even a read of the first byte is seen
+        uint8_t* p = len ? buf : buf + 8;
+        if (len) memcpy(buf, data, len);
         if (path == P_BYTES) {
-          o.reset(proto.de(buf, len));
+          o.reset(proto.de(p, len));
           free(buf); buf = nullptr;                               // an owning object must not refer to the buffer
         } else {
-          o.reset(proto.wrap(buf, len));
+          o.reset(proto.wrap(p, len));
         }
       } else {
         std::istringstream is(std::string(reinterpret_cast<const char*>(data), len), std::ios::in | std::ios::binary);
